@@ -251,7 +251,9 @@ func (f *Frame) execSelect(x *ssa.Select) {
 	tup := []Val{{idx, "Int"}, {vc.fresh("selok_"+x.Name(), "Bool"), "Bool"}}
 	for i, st := range x.States {
 		if st.Dir == types.SendOnly {
+			f.sendNonBlocking = !x.Blocking
 			f.execSend(st.Chan, st.Send, st.Pos, fmt.Sprintf("(= %s %d)", idx, i))
+			f.sendNonBlocking = false
 		} else {
 			ct := st.Chan.Type().Underlying().(*types.Chan)
 			rv := f.freshVal(fmt.Sprintf("selrecv_%s_%d", x.Name(), i), ct.Elem())
